@@ -722,6 +722,146 @@ def _replay_convert(ctx, rec, k, report, tuples):
         report("%s:histogram-modified:%s" % (op, where), detail)
 
 
+# --------------------------------------------------------------------------- S2C: flows through one element object
+FLOW_MAGS = [(0, 0), (0, 0), (0, 0), (-30, 20), (300, 300), (-300, 0)]
+_OPT = {"T": True, "F": False}
+
+
+def _flow_value(S, kind, h, v, i, floats, tuples, E, C, bare):
+    """The i-th value of a flow of ConvFlow.tla: a fresh histogram with the options of its own context."""
+    hist, _ = make_hist_int(S, h, floats, tuples, E, C)
+    context = {"tag": i}
+    if v["dup"] != "absent":
+        context.setdefault("output", {})["duplicate_last_bin"] = _OPT[v["dup"]]
+    if v["conv"] != "absent":
+        if kind == "ToCSV":
+            context.setdefault("output", {})["to_csv"] = _OPT[v["conv"]]
+        else:
+            context.setdefault("histogram", {})["to_graph"] = _OPT[v["conv"]]
+    if bare and v["dup"] == "absent" and v["conv"] == "absent":
+        return hist, hist          # a value without context
+    return hist, (hist, context)
+
+
+def _flow_ok(S, kind, want, got, val, hist, sep, header, E, C, target):
+    """Does what the element yielded for one value equal the output the model gives for that value?"""
+    dim = hist.dim
+    if want["kind"] == "pass":
+        return got is val
+    if want["kind"] == "raise":
+        return got == "raised " + want["exc"]
+    if not isinstance(got, tuple) or len(got) != 2:
+        return False
+    if want["kind"] == "rows":
+        if not isinstance(got[0], str):
+            return False
+        lines = got[0].split("\n")
+        if header:
+            if not lines or lines[0] != header:
+                return False
+            lines = lines[1:]
+        try:
+            rows = parse_csv(lines, sep)
+        except ValueError:
+            return False
+        return rows_close(rows, [[x * E for x in r[:-1]] + [r[-1] * C] for r in want["rows"]])
+    if want["kind"] == "cols":
+        g = got[0]
+        if not isinstance(g, S.graph):
+            return False
+        cols = [[x * (E if c < dim else C) for x in col] for c, col in enumerate(want["cols"])]
+        return [list(c) for c in g.coords] == cols
+    if want["kind"] == "scaled":
+        return (got[0] is hist and close_nested(hist.bins, nested(want["bins"], dim, fr), dim)
+                and close(hist.scale(), target))
+    return False
+
+
+def replay_flow(ctx, rec, k, report):
+    """One behaviour of ConvFlow.tla: ONE element object, the values of the flow each with the options of its own
+    context, fed in the run() calls of the record; the output for every value is the one the model gives."""
+    import lena.structures as S
+    import lena.output as O
+    elem, pool, flow, outs = rec["elem"], rec["pool"], rec["flow"], rec["out"]
+    kind = elem["kind"]
+    floats, tuples, bare = (k % 3 == 1), (k % 4 == 2), (k % 2 == 1)
+    em, cm = (0, 0) if kind == "ScaleTo" else FLOW_MAGS[(k // 3) % len(FLOW_MAGS)]
+    E, C = (2.0 ** em if em else 1), (2.0 ** cm if cm else 1)
+    sep = [",", ";", " "][k % 3]
+    header = None if k % 5 else "a header"
+    fn = ("x", "y", "z", "t")[:len(pool[0]["edges"]) + 1]
+
+    def make_element():
+        if kind == "ToCSV":
+            return O.ToCSV(separator=sep, header=header, duplicate_last_bin=elem["dup"])
+        if kind == "HistToGraph":
+            return S.HistToGraph(get_coordinate=elem["mode"], field_names=fn)
+        return S.ScaleTo(elem["s"])
+
+    def feed(el, vals):
+        """what the element yields for these values (one run())"""
+        if kind == "ScaleTo":
+            got = []
+            for val in vals:
+                try:
+                    got.append(el(val))
+                except Exception as exc:   # noqa
+                    got.append("raised " + exc_name(exc))
+            return got
+        with warnings.catch_warnings():
+            warnings.simplefilter("ignore")
+            return list(el.run(iter(vals)))
+
+    def value(i):
+        v = flow[i]
+        return _flow_value(S, kind, pool[v["hi"] - 1], v, i, floats, tuples, E, C, bare)
+
+    name = {"ToCSV": "to_csv", "HistToGraph": "HistToGraph", "ScaleTo": "ScaleTo"}[kind]
+    detail = {"element": elem, "flow": [dict(v, hist=pool[v["hi"] - 1]) for v in flow],
+              "expected_kinds": [o["kind"] for o in outs], "floats": floats, "tuple_edges": tuples,
+              "magnitude_exponents": [em, cm]}
+    try:
+        with watchdog(LIMIT):
+            el = make_element()
+            vals = [value(i) for i in range(len(flow))]
+            before = [copy.deepcopy(h.bins) for h, _ in vals]
+            got = []
+            for r in sorted(set(v["run"] for v in flow)):
+                seg = [vals[i][1] for i in range(len(flow)) if flow[i]["run"] == r]
+                part = feed(el, seg)
+                if len(part) != len(seg):
+                    report("%s:flow:%d-outputs-for-%d-values" % (name, len(part), len(seg)), dict(detail, run=r))
+                    return
+                got.extend(part)
+            for i, want in enumerate(outs):
+                hist, val = vals[i]
+                v = flow[i]
+                if _flow_ok(S, kind, want, got[i], val, hist, sep, header, E, C, elem["s"]):
+                    continue
+                # the same value alone through a new element object: is it the conversion or the company?
+                h1, v1 = value(i)
+                alone = feed(make_element(), [v1])
+                alone_ok = len(alone) == 1 and _flow_ok(S, kind, want, alone[0], v1, h1, sep, header, E, C, elem["s"])
+                where = "dim=%d:own-%s:element-%s" % (
+                    hist.dim,
+                    ("dup=%s" % v["dup"]) if kind == "ToCSV" else ("convert=%s" % v["conv"]),
+                    elem["dup"] if kind == "ToCSV" else (elem["mode"] or elem["s"]))
+                what = "output-depends-on-other-values-of-the-flow" if alone_ok else "output"
+                if alone_ok and len(set(x["run"] for x in flow[:i + 1])) > 1 and all(
+                        x["run"] != v["run"] for x in flow[:i]):
+                    what = "output-depends-on-an-earlier-run"
+                report("%s:flow:%s:%s" % (name, what, where),
+                       dict(detail, value=i, expected=want, observed=repr(got[i])[:400]))
+                return
+            if kind != "ScaleTo":
+                for i, (h, _) in enumerate(vals):
+                    if h.bins != before[i]:
+                        report("%s:flow:histogram-modified:dim=%d" % (name, h.dim), dict(detail, value=i))
+                        return
+    except Exception as exc:   # noqa
+        report("%s:flow:raised:%s" % (name, exc_name(exc)), dict(detail, exception=repr(exc)[:300]))
+
+
 # --------------------------------------------------------------------------- C2S: recorded operations
 def _rand_edges(rnd, n, ed):
     x = rnd.randint(-6, 6)
